@@ -119,10 +119,10 @@ func genC05(t *rapid.T) E1Case {
 	}
 	spec.CloseInEvent = rapid.IntRange(0, 3).Draw(t, "cie") == 0
 	// closers with distinct errors
-	kinds := []string{"sentinel", "wrapped", "nil", "eof", "neterr", "wrapped-neterr", "timeout", "deadline", "os-deadline"}
+	kinds := []string{"sentinel", "wrapped", "nil", "eof", "neterr", "wrapped-neterr", "timeout", "deadline", "os-deadline", "wrapped-errclosed"}
 	nc := rapid.IntRange(0, 4).Draw(t, "closers")
 	for i := 0; i < nc; i++ {
-		c.Tasks = append(c.Tasks, E1Task{Role: "closer", Ops: []E1Op{{Op: "close", Err: kinds[(i+rapid.IntRange(0, 8).Draw(t, "ck"))%len(kinds)]}}})
+		c.Tasks = append(c.Tasks, E1Task{Role: "closer", Ops: []E1Op{{Op: "close", Err: kinds[(i+rapid.IntRange(0, 9).Draw(t, "ck"))%len(kinds)]}}})
 	}
 	// other close sources and traffic
 	if rapid.IntRange(0, 2).Draw(t, "feeder") != 0 {
@@ -168,6 +168,10 @@ func genC05(t *rapid.T) E1Case {
 	}
 	if nw > 0 && c.Kind != "sync" && rapid.IntRange(0, 3).Draw(t, "sfail") == 0 {
 		c.Faults = []mock.Fault{{Op: rapid.SampledFrom([]string{"wr", "flush"}).Draw(t, "fop"), K: rapid.IntRange(1, 2).Draw(t, "fk"), Err: rapid.SampledFrom([]string{"plain", "neterr", "timeout"}).Draw(t, "ferr")}}
+	}
+	if len(c.Faults) == 0 && rapid.IntRange(0, 5).Draw(t, "closefault") == 0 {
+		// the transport's own Close reports an error (the connection is closed all the same)
+		c.Faults = []mock.Fault{{Op: "close", K: 1, Err: rapid.SampledFrom([]string{"plain", "neterr"}).Draw(t, "cferr")}}
 	}
 	if len(c.Tasks) == 0 {
 		c.Tasks = append(c.Tasks, E1Task{Role: "closer", Ops: []E1Op{{Op: "close", Err: "sentinel"}}})
